@@ -54,11 +54,20 @@ let split_bar args =
   go [] [] args
 
 let handle (stack : string) (args : string list) : string =
-  let st = parse_stack stack in
-  let slots : S.fld option array = Array.make 8 None in
-  let get s = match slots.(int_of_string s) with Some f -> f | None -> failwith "empty slot" in
-  let one (part : string list) : string =
+  let st0 = parse_stack stack in
+  (* slots are per stack type, as in the harness *)
+  let tbl : (string, S.fld option array) Hashtbl.t = Hashtbl.create 4 in
+  let slots_of name = (match Hashtbl.find_opt tbl name with Some a -> a | None -> let a = Array.make 8 None in Hashtbl.add tbl name a; a) in
+  let rec one_on (name : string) (st : S.stack) (part : string list) : string =
+    let slots = slots_of name in
+    let get s = match slots.(int_of_string s) with Some f -> f | None -> failwith "empty slot" in
     match part with
+    | "on" :: other :: rest -> one_on other (parse_stack other) rest
+    | "conv" :: target :: d :: s :: _ ->
+        let tst = parse_stack target in
+        (match Convert.convert st tst (get s) with
+         | Some f -> (slots_of target).(int_of_string d) <- Some f; "OK"
+         | None -> "MODEL_NO_CONVERSION")
     | "new" :: s :: toks ->
         (match StackGlue.parse_fld st (zs toks) with
          | Some f -> slots.(int_of_string s) <- Some f; "OK"
@@ -81,6 +90,28 @@ let handle (stack : string) (args : string list) : string =
         (match Extract_stack.m_eval st (get s) (zs coords) with
          | Some (t, _) -> "T" ^ show t
          | None -> "DOMAIN")
+    | ("par" | "parw") :: s :: _ :: _ :: coords ->
+        (* the sequential meaning of the concurrent lookups / disjoint writes (theorem schedule_irrelevant) *)
+        let n = (match S.kind_of st with Some k -> int_of_nat k.S.k_n | None -> failwith "kind") in
+        let m = (match S.kind_of st with Some k -> int_of_nat k.S.k_m | None -> failwith "kind") in
+        let tv = (match S.kind_of st with Some k -> k.S.k_tv | None -> failwith "kind") in
+        let rec chunks l = (match l with [] -> [] | _ -> take n l :: chunks (Stdlib.List.filteri (fun i _ -> i >= n) l)) in
+        let cs = chunks (zs coords) in
+        if Stdlib.List.hd part = "par" then
+          "P ok" ^ cat "" (Stdlib.List.map (fun c -> match Extract_stack.m_eval st (get s) c with
+                                                    | Some (_, v) -> " ;" ^ show v | None -> " ;DOMAIN") cs)
+        else
+          "W ok" ^ cat "" (Stdlib.List.mapi (fun j c -> match Extract_stack.m_eval st (get s) c with
+              | Some _ -> " ;" ^ show (Stdlib.List.init m (fun q -> FloatOps.fofZ tv (z_of_zarith (Z.of_int (1000 + 10 * j + q)))))
+              | None -> " ;DOMAIN") cs)
+    | "wr" :: s :: toks ->
+        let n = (match S.kind_of st with Some k -> int_of_nat k.S.k_n | None -> failwith "kind") in
+        let z = zs toks in
+        let c = take n z in
+        let v = Stdlib.List.filteri (fun i _ -> i >= n) z in
+        (match Extract_stack.m_write st (get s) c v with
+         | Some f -> slots.(int_of_string s) <- Some f; "OK"
+         | None -> "NOT_WRITABLE")
     | ["cfg"; s] ->
         "C" ^ cat "" (Stdlib.List.map (fun g -> " ;" ^ show g) (StackGlue.fld_cfg_groups (get s)))
     | ["sto"; s] ->
@@ -119,8 +150,11 @@ let handle (stack : string) (args : string list) : string =
              "G" ^ Buffer.contents out ^ Printf.sprintf " E%d" !off)
     | ["wf"; s] -> if BinIOProofs.wf_fld st (get s) then "WF" else "NOT_WF"
     | ["copy"; d; s] -> slots.(int_of_string d) <- Some (get s); "OK"
+    | ["cassign"; d; s] -> ignore (get d); slots.(int_of_string d) <- Some (get s); "OK"
+    | ["massign"; d; s] -> ignore (get d); let v = get s in
+        if d <> s then (slots.(int_of_string d) <- Some v; slots.(int_of_string s) <- None); "OK"
     | ["del"; d] -> slots.(int_of_string d) <- None; "OK"
     | _ -> "BAD_OP" in
-  cat " | " (Stdlib.List.map (fun p -> try one p with Failure m -> "MODEL_FAIL " ^ m) (split_bar args))
+  cat " | " (Stdlib.List.map (fun p -> try one_on stack st0 p with Failure m -> "MODEL_FAIL " ^ m) (split_bar args))
 
 let () = main_loop handle
